@@ -179,8 +179,10 @@ func (c06) Gen(r *world.Rng, tier string, n int) interface{} {
 	for i := 0; i < plen; i++ {
 		x := r.Intn(100)
 		switch {
-		case x < 30:
+		case x < 27:
 			prog = append(prog, miNOP...)
+		case x < 30:
+			prog = append(prog, []uint8{0xdd, 0xfd}[r.Intn(2)], 0x00) // dangling index prefix + NOP
 		case x < 47:
 			prog = append(prog, miEI...)
 		case x < 55:
@@ -227,12 +229,16 @@ func (c06) Gen(r *world.Rng, tier string, n int) interface{} {
 			return hex.EncodeToString([]uint8{vec})
 		case 0:
 			switch x := r.Intn(12); {
-			case x < 7:
+			case x < 6:
 				return hex.EncodeToString([]uint8{0xc7 | uint8(r.Intn(8))<<3})
+			case x < 7:
+				return hex.EncodeToString(append([]uint8{0xc7 | uint8(r.Intn(8))<<3}, r.Bytes(r.Range(1, 2))...)) // RST + padding
 			case x < 10:
 				return hex.EncodeToString([]uint8{0xcd, uint8(tc), uint8(tc >> 8)})
-			default:
+			case x < 11:
 				return hex.EncodeToString([]uint8{0xc3, uint8(tc), uint8(tc >> 8)}) // JP nn: the supplied instruction need not push
+			default:
+				return hex.EncodeToString(append([]uint8{0xc9}, r.Bytes(r.Intn(3))...)) // RET (+ padding): reads the stack in memory
 			}
 		default:
 			if r.Bool() {
@@ -339,7 +345,7 @@ func (c06) Exec(sci interface{}, env *Env) *Violation {
 			switch before.IM {
 			case 0:
 				l := uint16(len(req.Data))
-				if (before.SP-1)-before.PC < l || (before.SP-2)-before.PC < l {
+				if (before.SP-1)-before.PC < l || (before.SP-2)-before.PC < l || before.SP-before.PC < l || (before.SP+1)-before.PC < l {
 					env.Class("stop/sp-in-overlay")
 					return nil
 				}
@@ -455,8 +461,12 @@ func (c06) Exec(sci interface{}, env *Env) *Violation {
 			// mode 0 RST/CALL: the stored word is C07's subject (known finding: PC+len instead of PC); here only
 			// "one of those two" is demanded, so that a third value - e.g. only at a PC wrap - is still seen
 			pushed := uint16(m.Bus.Mem[before.SP-1])<<8 | uint16(m.Bus.Mem[before.SP-2])
-			if off := pushed - before.PC; off != 0 && int(off) != len(reqCopy.Data) {
-				return viol("im0-pushed-word", "mode-0 acceptance at PC=%04x with data %x stored %04x: neither PC nor PC+len(data); %s", before.PC, reqCopy.Data, pushed, ctx())
+			ilen := 1 // RST
+			if reqCopy.Data[0] == 0xcd {
+				ilen = 3
+			}
+			if off := pushed - before.PC; off != 0 && int(off) != ilen {
+				return viol("im0-pushed-word", "mode-0 acceptance at PC=%04x with data %x stored %04x: neither PC nor PC + the length of the supplied instruction; %s", before.PC, reqCopy.Data, pushed, ctx())
 			}
 			c.Mem.Set(before.SP-1, m.Bus.Mem[before.SP-1])
 			c.Mem.Set(before.SP-2, m.Bus.Mem[before.SP-2])
@@ -487,8 +497,9 @@ func (c06) Exec(sci interface{}, env *Env) *Violation {
 				}
 			}
 			okW := len(wr) == 2 && ((wr[0].Addr == before.SP-1 && wr[1].Addr == before.SP-2) || (wr[0].Addr == before.SP-2 && wr[1].Addr == before.SP-1))
-			if c.Last == model.KAcceptIM0 && len(reqCopy.Data) == 3 && reqCopy.Data[0] == 0xc3 {
-				okW = len(wr) == 0 // a supplied JP nn stores nothing
+			im0ret := c.Last == model.KAcceptIM0 && reqCopy.Data[0] == 0xc9
+			if c.Last == model.KAcceptIM0 && (reqCopy.Data[0] == 0xc3 || im0ret) {
+				okW = len(wr) == 0 // a supplied JP nn / RET stores nothing
 			}
 			if !okW {
 				return viol("acceptance-bus", "acceptance must write exactly SP-1 and SP-2; %s", ctx())
@@ -501,7 +512,11 @@ func (c06) Exec(sci interface{}, env *Env) *Violation {
 					return viol("acceptance-bus", "mode 2 must read exactly the two table bytes at %04x; %s", t, ctx())
 				}
 			default:
-				if len(rd) != 0 {
+				if im0ret {
+					if !(len(rd) == 2 && ((rd[0].Addr == before.SP && rd[1].Addr == before.SP+1) || (rd[0].Addr == before.SP+1 && rd[1].Addr == before.SP))) {
+						return viol("acceptance-bus", "a supplied RET reads exactly the two stack bytes at SP, SP+1 from memory (reads: %s); %s", world.FmtLog(rd), ctx())
+					}
+				} else if len(rd) != 0 {
 					return viol("acceptance-bus", "no program instruction may be fetched in an acceptance Step (reads: %s); %s", world.FmtLog(rd), ctx())
 				}
 			}
